@@ -32,8 +32,17 @@ Inductive mode := MPregel | MDag | MEager.
    the nested graph number g of the forest (g is used by exactly this node), otherwise a
    lambda that calls compose.ProcessState [n_ps] times. [n_preds = []]: fed by START,
    otherwise by exactly these nodes of the same graph (all in the previous layer). *)
-Record node := mkNode {
-  n_id : N; n_pre : bool; n_post : bool; n_sub : option nat; n_ps : nat; n_preds : list N }.
+Record node := mkNodeZ {
+  n_id : N; n_pre : bool; n_post : bool; n_sub : option nat; n_ps : nat; n_preds : list N;
+  n_zero : bool }.
+(* [n_zero]: the node is the re-execution of a node that interrupted itself (compose.InterruptAndRerun):
+   it starts when its predecessors are final, like every node, but its input is the zero value of the
+   input type (the empty merge), not what the predecessors deliver (graph_run.go
+   handleInterruptWithSubGraphAndRerunNodes: cp.Inputs[rerun node] = inputZeroValue). The interrupted
+   first execution is a node of its own (the pre-handler and the ProcessState calls it performed, no
+   post-handler) whose only successor is the re-execution: its output is never used. *)
+Definition mkNode (id : N) (pre post : bool) (sub : option nat) (ps : nat) (preds : list N) : node :=
+  mkNodeZ id pre post sub ps preds false.
 
 Record graph := mkGraph { g_mode : mode; g_state : bool; g_nodes : list node }.
 Definition forest := list graph.     (* graph 0 is the top-level graph *)
@@ -214,7 +223,7 @@ Section Spec.
                            end
                     end
             | ps => match opt_mapM (fun p => eval fu r t (QFinal p)) ps with
-                    | Some xs => Some (merge xs)
+                    | Some xs => Some (if n_zero a then merge [] else merge xs)
                     | None => None
                     end
             end
